@@ -2163,6 +2163,12 @@ func (fr *Frame) loopEnv(li *loopInfo, st *State, phiVals map[*ssa.Phi]Val, R st
 			}
 		}
 	}
+	// a renamed loop-carried variable: the old name follows the value of the loop head, like the new one
+	for old, cur := range fr.aliasBound {
+		if v, ok := vars[cur]; ok {
+			vars[old] = v
+		}
+	}
 	for _, ins := range li.header.Instrs {
 		if nx, ok := ins.(*ssa.Next); ok {
 			if r, ok := nx.Iter.(*ssa.Range); ok {
@@ -2207,24 +2213,47 @@ func (fr *Frame) loopEnv(li *loopInfo, st *State, phiVals map[*ssa.Phi]Val, R st
 // bindLocals makes source-level local variable names available to loop invariants.
 func (fr *Frame) bindLocals(vars map[string]Val, st *State, li *loopInfo) {
 	fr.bindLocals0(vars, st, li)
+	fr.aliasBound = nil
 	// a recorded local that was renamed: bind the old name to the one current name it can stand for here
 	for old, cands := range fr.localAliases() {
+		if os.Getenv("GOVC_DEBUGALIAS") != "" {
+			_, has := vars[old]
+			fmt.Fprintf(os.Stderr, "alias %s -> %v (bound already: %v)\n", old, cands, has)
+		}
 		if _, ok := vars[old]; ok {
 			continue
 		}
+		// prefer the names bound from a definition that dominates this point (a name of another scope may be bound too,
+		// from a block that happens to have been translated already)
 		var hit []string
 		for _, cn := range cands {
-			if _, ok := vars[cn]; ok {
+			if fr.domBound[cn] {
 				hit = append(hit, cn)
 			}
 		}
+		if len(hit) != 1 {
+			hit = nil
+			for _, cn := range cands {
+				if _, ok := vars[cn]; ok {
+					hit = append(hit, cn)
+				}
+			}
+		}
+		if os.Getenv("GOVC_DEBUGALIAS") != "" {
+			fmt.Fprintf(os.Stderr, "  hits for %s: %v\n", old, hit)
+		}
 		if len(hit) == 1 {
 			vars[old] = vars[hit[0]]
+			if fr.aliasBound == nil {
+				fr.aliasBound = map[string]string{}
+			}
+			fr.aliasBound[old] = hit[0]
 		}
 	}
 }
 
 func (fr *Frame) bindLocals0(vars map[string]Val, st *State, li *loopInfo) {
+	fr.domBound = map[string]bool{}
 	c := fr.c
 	bound := map[string]*ssa.BasicBlock{} // block of the debug reference a name is currently bound from
 	at := fr.curBlock
@@ -2246,6 +2275,7 @@ func (fr *Frame) bindLocals0(vars map[string]Val, st *State, li *loopInfo) {
 				if recs[i].blk == at || recs[i].blk.Dominates(at) {
 					if v, ok := fr.vals[recs[i].v]; ok {
 						vars[name] = v
+						fr.domBound[name] = true
 					} else if k, isConst := recs[i].v.(*ssa.Const); isConst {
 						vars[name] = c.constVal(k)
 					}
